@@ -59,6 +59,9 @@ static void tok_init(void) {
   if (!tok_st) { tok_st = harness_alloc(TOK_MAX); tok_seen = harness_alloc(TOK_MAX); }
 }
 long tok_live(void) { return g_tok_live; }
+/* n element copies that the library constructed for a call that then failed and never finalised (a listed known finding):
+ * taken out of the live count so that the ledger keeps judging everything else */
+void tok_forgive(long n) { g_tok_live -= n; }
 long tok_issued(void) { return g_tok_issued; }
 long tok_retired(void) { return g_tok_retired; }
 int  tok_state(int64_t id) { tok_init(); return (id > 0 && id < TOK_MAX) ? tok_st[id] : 0; }
